@@ -71,6 +71,7 @@ func runC12(c *Ctx) {
 		return
 	}
 	c12IndexRemap(c, pk)
+	c12PathIndexPositional(c, pk)
 	info := pk.TypesInfo
 	excluded := pk.Types.Scope().Lookup("inclusionModeExcluded")
 	if excluded == nil {
@@ -566,4 +567,112 @@ func enclosingIf(p *Prog, n ast.Node) *ast.IfStmt {
 		}
 	}
 	return nil
+}
+
+// c12PathIndexPositional (PATH-INDEX-POSITIONAL, added with finding F26): a source-code-info path addresses an element
+// of a repeated field by its *position* in that field. Every `append(path, idx)` that extends a SourcePath with a
+// non-constant index must therefore take idx from a loop position - the key of a range statement, or a counter that
+// is only initialised with a constant and stepped by one - never from an element *value* of the list (for
+// weak_dependency / public_dependency the values are indexes into another list, which type-checks just as well).
+func c12PathIndexPositional(c *Ctx, pk *packages.Package) {
+	const rule = "PATH-INDEX-POSITIONAL"
+	c.Rule(rule, "the index appended to a source path is the element's position in its repeated field, not an element value", 3)
+	p := c.P
+	info := pk.TypesInfo
+	for _, fr := range p.FuncsOf(pk) {
+		if fr.Decl.Body == nil {
+			continue
+		}
+		body := fr.Decl.Body
+		// classification of a local variable by all the ways it is written in this function
+		classifyVar := func(v types.Object) (string, bool) {
+			kind, decided := "", true
+			set := func(k string) {
+				if kind == "" || kind == k {
+					kind = k
+				} else if k == "value" || kind == "value" {
+					kind = "value"
+				} else {
+					decided = false
+				}
+			}
+			ast.Inspect(body, func(n ast.Node) bool {
+				switch x := n.(type) {
+				case *ast.RangeStmt:
+					_, isSlice := info.TypeOf(x.X).Underlying().(*types.Slice)
+					if x.Key != nil && identObj(info, x.Key) == v {
+						if isSlice {
+							set("position")
+						} else {
+							decided = false
+						}
+					}
+					if x.Value != nil && identObj(info, x.Value) == v {
+						set("value")
+					}
+				case *ast.IncDecStmt:
+					if identObj(info, x.X) == v {
+						set("position")
+					}
+				case *ast.AssignStmt:
+					for i, l := range x.Lhs {
+						if identObj(info, l) != v {
+							continue
+						}
+						if len(x.Rhs) != len(x.Lhs) {
+							decided = false
+							continue
+						}
+						r := ast.Unparen(x.Rhs[i])
+						if call, ok := r.(*ast.CallExpr); ok && len(call.Args) == 1 && info.Types[call.Fun].IsType() {
+							r = ast.Unparen(call.Args[0])
+						}
+						if tv, ok := info.Types[r]; ok && tv.Value != nil {
+							set("position") // constant start of a counter
+						} else if _, isIx := r.(*ast.IndexExpr); isIx {
+							set("value")
+						} else {
+							decided = false
+						}
+					}
+				}
+				return true
+			})
+			return kind, decided && kind != ""
+		}
+		ast.Inspect(body, func(n ast.Node) bool {
+			call, ok := n.(*ast.CallExpr)
+			if !ok || len(call.Args) != 2 || call.Ellipsis.IsValid() {
+				return true
+			}
+			if id, ok := ast.Unparen(call.Fun).(*ast.Ident); !ok || id.Name != "append" {
+				return true
+			} else if _, isBuiltin := info.Uses[id].(*types.Builtin); !isBuiltin {
+				return true
+			}
+			if namedName(info.TypeOf(call.Args[0])) != "SourcePath" {
+				return true
+			}
+			idx := ast.Unparen(call.Args[1])
+			if tv, ok := info.Types[idx]; ok && tv.Value != nil {
+				return true // a field tag
+			}
+			if conv, ok := idx.(*ast.CallExpr); ok && len(conv.Args) == 1 && info.Types[conv.Fun].IsType() {
+				idx = ast.Unparen(conv.Args[0])
+			}
+			inst := declName(fr.Decl) + "/append(" + exprString(call.Args[0]) + ", " + exprString(call.Args[1]) + ")"
+			v := identObj(info, idx)
+			if v == nil {
+				c.Ob(rule, inst, call.Pos(), false, true, "the appended index %s is not a local variable the rule can classify", exprString(idx))
+				return true
+			}
+			kind, decided := classifyVar(v)
+			if !decided {
+				c.Ob(rule, inst, call.Pos(), false, true, "the origin of index variable %s is not decided (neither a range key, a unit-step counter nor a range value)", v.Name())
+				return true
+			}
+			c.Ob(rule, inst, call.Pos(), kind == "position", true, "index variable %s is a %s of the list being walked", v.Name(), map[string]string{"position": "position (range key / unit-step counter)", "value": "element VALUE (the path then names a different element, or none)"}[kind])
+			return true
+		})
+	}
 }
